@@ -30,7 +30,7 @@ func init() {
 			"the IdP checks endpoint and pre-existing parameters, SAMLRequest inflating to exactly the document, RelayState presence and value, SigAlg naming the algorithm and the signature verifying with crypto/rsa or crypto/ecdsa over SAMLRequest=..[&RelayState=..]&SigAlg=.. rebuilt from the raw URL octets under the published certificate; distinct = shape hash (builder, relay class, endpoint, key config, algorithm, outcome)",
 		Directed:   c14Directed,
 		Run:        c14Run,
-		MustHit:    []string{"builder=BuildAuthURLRedirect", "builder=BuildLogoutURLRedirect", "builder=BuildAuthURL", "builder=AuthRedirect", "relay_absent", "relay_with_space", "relay_with_reserved", "endpoint_with_query", "signed_redirect", "unsigned_redirect", "ec_signer", "unsupported_algorithm_configured", "decorated_document", "second_redirect_on_same_sp"},
+		MustHit:    []string{"builder=BuildAuthURLRedirect", "builder=BuildLogoutURLRedirect", "builder=BuildAuthURL", "builder=AuthRedirect", "relay_absent", "relay_with_space", "relay_with_reserved", "endpoint_with_query", "signed_redirect", "unsigned_redirect", "ec_signer", "unsupported_algorithm_configured", "decorated_document", "second_redirect_on_same_sp", "incoming_request_with_query"},
 		RandomRuns: map[string]int{"quick": 6000, "thorough": 50000},
 	})
 }
@@ -128,7 +128,16 @@ func c14Measure(r *core.Run, o *Out, builder, relay string, signReq bool, decor 
 			u, err = sp.BuildAuthURL(relay)
 		default:
 			rec := httptest.NewRecorder()
-			req := httptest.NewRequest(http.MethodGet, "https://sp.example/login", nil)
+			// the browser's own request to the SP is under the user agent's control: nothing in it may
+			// find its way into the redirect
+			incoming := []string{"https://sp.example/login", "https://sp.example/login?RelayState=from-the-browser&SAMLRequest=ZXZpbA%3D%3D&SigAlg=urn%3Ax&Signature=AAAA",
+				"https://sp.example/login?next=%2Fhome%3Ftab%3D2&relaystate=lower", "https://sp.example/login?RelayState="}[t.Int(4, "c14.incoming")]
+			req := httptest.NewRequest(http.MethodGet, incoming, nil)
+			if strings.Contains(incoming, "?") {
+				req.Header.Set("Referer", "https://evil.example/?RelayState=from-referer")
+				req.AddCookie(&http.Cookie{Name: "RelayState", Value: "from-cookie"})
+				r.Probe("incoming_request_with_query")
+			}
 			err = sp.AuthRedirect(rec, req, relay)
 			if err == nil {
 				if rec.Code != http.StatusFound {
